@@ -256,6 +256,51 @@ def extract(repo):
     g['FILTER_ADD_NO_NO'] = m1.group(1)
     g['FILTER_ADD_OTHER'] = m2.group(1)
 
+    # the worker loop: which calls serve which request, and what happens to an error of `process_msg`
+    ow = read(repo, 'src/storage/observer_worker.rs')
+    body = fn_body(ow, 'process_msg', 'in observer_worker.rs')
+    mi = body.find('match msg.optype')
+    if mi < 0:
+        raise Fail('process_msg: `match msg.optype` not found')
+    arms = []
+    pos = body.index('{', mi) + 1
+    while True:
+        m = re.compile(r'\s*OperationType::(\w+)\s*=>\s*\{').match(body, pos)
+        if not m:
+            break
+        depth, j = 1, m.end()
+        while depth and j < len(body):
+            depth += {'{': 1, '}': -1}.get(body[j], 0)
+            j += 1
+        arm = body[m.end():j - 1]
+        calls = re.findall(r'(?:self\.inner\.|self\.|\b)(\w+)\s*\((?:&self\.inner)?\)\s*\.await(\??)', arm)
+        arms.append((m.group(1), ' '.join(n + q for n, q in calls)))
+        pos = j
+        m2 = re.compile(r'\s*,').match(body, pos)
+        if m2:
+            pos = m2.end()
+    if len(arms) < 8:
+        raise Fail(f'process_msg: only {len(arms)} arms recognised')
+    g['WORKER_DISPATCH'] = arms
+    pol = []
+    for fn in ('tick', 'tick_with_deadline'):
+        b = fn_body(ow, fn, 'in observer_worker.rs')
+        if re.search(r'self\.process_msg\(msg\)\.await\s*\?', b):
+            pol.append('propagate')
+        elif re.search(r'if\s+let\s+Err\(\w+\)\s*=\s*self\.process_msg\(msg\)\.await\s*\{', b):
+            pol.append('log')
+        else:
+            raise Fail(f'{fn}: handling of process_msg errors not recognised')
+    g['WORKER_MSG_ERROR_POLICY'] = pol
+    # the writer's rotation test
+    body = fn_body(sc, 'should_update_active_blob', 'in storage/core.rs')
+    m1 = re.search(r'active_blob\.file_size\(\)\s*(>=|>|==|<=|<)\s*config_max_size', body)
+    m2 = re.search(r'active_blob\.records_count\(\)\s*as\s+u64\s*(>=|>|==|<=|<)\s*config_max_count', body)
+    m3 = re.search(r'dur\.as_millis\(\)\s*(>=|>|==|<=|<)\s*self\.inner\.config\.debounce_interval_ms\(\)', body)
+    m4 = re.search(r'config_max_size\s*(\|\||&&)\s*active_blob\.records_count', body)
+    if not (m1 and m2 and m3 and m4):
+        raise Fail('should_update_active_blob: rotation test not recognised')
+    g['ROTATE_TEST'] = [m1.group(1), m4.group(1), m2.group(1), m3.group(1)]
     rr = read(repo, 'src/storage/read_result.rs')
     ops = re.findall(r'if\s+other\.timestamp\(\)\s*(>=|>|<=|<|==)\s*self\.timestamp\(\)\s*\{\s*other\s*\}\s*else\s*\{\s*self\s*\}', rr)
     if len(ops) != 2 or len(set(ops)) != 1:
@@ -366,6 +411,8 @@ def lean_type(v):
         return 'String'
     if isinstance(v, list) and v and isinstance(v[0], tuple):
         return 'List (String × String)'
+    if isinstance(v, list) and v and isinstance(v[0], str):
+        return 'List String'
     return 'List Nat'
 
 
